@@ -236,12 +236,20 @@ let judge_record line =
                   relaxation) is counted as non-uniform as well *)
                | _ -> nonaffine := true)
             | _ -> ()) l) by_rest;
+    (* all-valuations certificate (Pip.tree_cert_b, theorem tree_cert_sound): attempted on small
+       instances under its own time limit; "no" only means not certified *)
+    let certified =
+      if bigi < 0 && dim + nvars + tree_arts tree <= 9 && m <= 7 && tree_size tree <= 12 then begin
+        ignore (Unix.alarm 3);
+        let r = (try (if tree_cert_b pb tree then "yes" else "no") with Judge_timeout | Stack_overflow | Out_of_memory -> "gave_up") in
+        ignore (Unix.alarm 20); r end
+      else "not_tried" in
     let kinds = String.concat "," (Hashtbl.fold (fun k v acc -> (jstr k ^ ":" ^ string_of_int v) :: acc) fail_kinds []) in
-    Printf.printf "{\"rid\":%s,\"status\":%s,\"inctx\":%d,\"sol\":%d,\"bot\":%d,\"undecided\":%d,\"treesol\":%d,\"nfail\":%d,\"kinds\":{%s},\"fails\":[%s],\"status_fail\":%s,\"all_fail_zero_param\":%b,\"ref_sol_nonzero\":%d,\"malformed\":[%s],\"nodes\":%d,\"arts\":%d,\"maxval\":%s,\"relax\":%s,\"big_nonaffine\":%b}\n"
+    Printf.printf "{\"rid\":%s,\"status\":%s,\"inctx\":%d,\"sol\":%d,\"bot\":%d,\"undecided\":%d,\"treesol\":%d,\"nfail\":%d,\"kinds\":{%s},\"fails\":[%s],\"status_fail\":%s,\"all_fail_zero_param\":%b,\"ref_sol_nonzero\":%d,\"malformed\":[%s],\"nodes\":%d,\"arts\":%d,\"maxval\":%s,\"relax\":%s,\"big_nonaffine\":%b,\"certified\":%s}\n"
       (jstr rid) (jstr status) !inctx !nsol !nbot !undec !tree_sol !nfail kinds (Buffer.contents fails) (jstr status_fail)
       !all_fail_zero !ref_sol_nonzero
       (String.concat "," (List.map jstr (List.rev !malformed))) (tree_size tree) (tree_arts tree) (string_of_z !maxv)
-      (match relax with Some true -> "\"nonempty\"" | Some false -> "\"empty\"" | None -> "\"?\"") !nonaffine
+      (match relax with Some true -> "\"nonempty\"" | Some false -> "\"empty\"" | None -> "\"?\"") !nonaffine (jstr certified)
   with
   | Malformed s -> Printf.printf "{\"rid\":%s,\"error\":%s}\n" (jstr rid) (jstr ("malformed record: " ^ s))
   | Stack_overflow -> Printf.printf "{\"rid\":%s,\"error\":\"judge: stack overflow\"}\n" (jstr rid)
